@@ -13,7 +13,8 @@ import engine
 import gendrv
 
 LEVEL = "proof"
-ENGINE_PROPS = [("Props_C06.v", ["C06_close_terminates", "C06_close_terminates_reachable", "C06_no_new_ids", "C06_reach_WF"])]
+ENGINE_PROPS = [("Props_C06.v", ["C06_close_terminates", "C06_close_terminates_reachable", "C06_no_new_ids", "C06_reach_WF", "C06_roots_subset",
+                                  "C06_no_new_ids_per_type"])]
 
 
 def run(ctx):
